@@ -37,7 +37,23 @@ def directed(rng: random.Random, tier: str):
         hs.round([(4, hs.connect_v1(src_mod=0))], [1, 2, 3, 4, 5], 0)
         hs.round([(5, hs.connect_v2(mod_id=0))], [1, 2, 3, 4, 5], 0)
         out.append(hs)
+    # identity rules at connect, systematically: every ordered triple of connection requests over
+    # id in {dynamic, 5} x allow_multiple in {no, yes} x name in {none, "worker"} (CONNECT_V2), each connection accepted
+    # first; a monitor sees the acknowledgements.  Whatever the order, the third request must be judged against BOTH
+    # earlier modules.
+    kinds = [(mid, am, nm) for mid in (0, 5) for am in (0, 1) for nm in (b"", b"worker")]
+    triples = [(a, b, c) for a in kinds for b in kinds for c in kinds]
+    for a, b, c in triples:
+        hs = C.History(loglevel=60, tag="identity-triples")
+        for _ in range(4):
+            hs.round([], [], 0, accept=True)
+        hs.round([(1, hs.connect_v2(logger=1, mod_id=90))], [1, 2, 3, 4], 0)
+        hs.round([(1, hs.sub("sub", C.ALL))], [1, 2, 3, 4], 0)
+        for conn, (mid, am, nm) in zip((2, 3, 4), (a, b, c)):
+            hs.round([(conn, hs.connect_v2(mod_id=mid, allow_multiple=am, name=nm))], [1, 2, 3, 4], 0)
+        out.append(hs)
     return out
+
 
 
 def run(chk: Check):
